@@ -37,7 +37,11 @@ impl Axecutor {
                 s
             }; (set: FLAGS_UNAFFECTED; clear: 0)]
         } else {
-            Ok(())
+            // the source is read (and can fault) whatever the condition; the destination keeps its
+            // value (a 32-bit destination is zero-extended like any other 32-bit write)
+            calculate_r_rm![u16; self; i; |d, _| {
+                d
+            }; (set: FLAGS_UNAFFECTED; clear: 0)]
         }
     }
 
@@ -52,7 +56,11 @@ impl Axecutor {
                 s
             }; (set: FLAGS_UNAFFECTED; clear: 0)]
         } else {
-            Ok(())
+            // the source is read (and can fault) whatever the condition; the destination keeps its
+            // value (a 32-bit destination is zero-extended like any other 32-bit write)
+            calculate_r_rm![u32; self; i; |d, _| {
+                d
+            }; (set: FLAGS_UNAFFECTED; clear: 0)]
         }
     }
 
@@ -67,7 +75,11 @@ impl Axecutor {
                 s
             }; (set: FLAGS_UNAFFECTED; clear: 0)]
         } else {
-            Ok(())
+            // the source is read (and can fault) whatever the condition; the destination keeps its
+            // value (a 32-bit destination is zero-extended like any other 32-bit write)
+            calculate_r_rm![u64; self; i; |d, _| {
+                d
+            }; (set: FLAGS_UNAFFECTED; clear: 0)]
         }
     }
 }
